@@ -308,6 +308,7 @@ type mutantDef struct {
 	Replace  string `json:"replace"`
 	Nth      int    `json:"nth,omitempty"` // which occurrence (1-based); 0 = must be unique
 	Expect   string `json:"expect"`        // substring of the violated key
+	Benign   bool   `json:"benign,omitempty"` // a behaviour-preserving edit: the check must stay silent
 }
 
 func loadMutants(verif string) ([]mutantDef, error) {
